@@ -3,7 +3,7 @@
 generation) -> scripts executed on the real GCPMultiEndpoint over in-process bufconn servers ->
 recorded trace -> TLC on specs/GCPMETrace.tla. Failing-update scripts are repeated because Go map
 iteration decides in which order UpdateMultiEndpoints applies entries."""
-import json, os, sys, time, random, re
+import json, os, sys, time, random, re, shutil
 
 sys.path.insert(0, os.path.dirname(os.path.abspath(__file__)))
 import vlib, pool
@@ -30,6 +30,32 @@ def write_cfg(path, depth, mode, prop, optsets, ticks=()):
     open(path, "w").write("\n".join(lines) + "\n")
 
 
+def run_sharded(scratch, binp, scripts, name, env, shards):
+    """The harness is real-time bound (settling of real connections): the scripts are split over several processes, each with its
+    own in-process servers and its own goroutine baseline; the traces are concatenated in script order."""
+    from concurrent.futures import ThreadPoolExecutor
+    shards = max(1, min(shards, len(scripts) // 20 + 1))
+    parts = [scripts[k::shards] for k in range(shards)]
+
+    def one(k):
+        inp, outp = scratch.path("%s-scripts-%d.ndjson" % (name, k)), scratch.path("%s-trace-%d.ndjson" % (name, k))
+        with open(inp, "w") as f:
+            for s in parts[k]:
+                f.write(json.dumps(s) + "\n")
+        rc, out = vlib.run_test_binary(binp, "TestVerifGME", dict(env, VERIF_IN=inp, VERIF_OUT=outp), timeout=3400)
+        if rc != 0 or "VERIF-GME" not in out:
+            raise Infra("GCPME harness failed (shard %d of %s):\n%s" % (k, name, out[-3000:]))
+        return outp
+    with ThreadPoolExecutor(max_workers=shards) as ex:
+        outs = list(ex.map(one, range(shards)))
+    allp = scratch.path(name + "-trace.ndjson")
+    with open(allp, "w") as fo:
+        for o in outs:
+            with open(o) as fi:
+                shutil.copyfileobj(fi, fo)
+    return allp
+
+
 def has_failing_cfg(h):
     return any(s.get("op") in ("new", "update") for s in h)
 
@@ -53,7 +79,7 @@ def run(pid, tier, seed):
             problems.append({"mode": "bfs", "violated": r["violated"], "errors": r["errors"][:2], "tail": r["out"][-3000:], "hist": vlib.cex_hist(cex)})
         hists = vlib.hists_from_tlc(r["outfile"], True)
         os.remove(r["outfile"])
-        lim = 350 if tier == "quick" else 6000
+        lim = 350 if tier == "quick" else 4000
         if len(hists) > lim:
             rnd.shuffle(hists)
             hists = hists[:lim]
@@ -69,7 +95,7 @@ def run(pid, tier, seed):
         hists += vlib.hists_from_tlc(r2["outfile"], False)
         os.remove(r2["outfile"])
         scripts = []
-        reps = 4 if tier == "quick" else 16
+        reps = 4 if tier == "quick" else 8
         TIMED = [(0, 3), (2, 3), (2, 0)]   # (recovery timeout, switching delay) in virtual ms; histories with clock inputs run on the virtual clock
         # Tick is enabled in every live state of GCPME.tla and changes nothing there, so the exhaustive run (VIEW = mechanism state)
         # never extends a history through it: the timed variants of the exhaustive histories are derived here by inserting
@@ -113,13 +139,7 @@ def run(pid, tier, seed):
                     s = json.loads(l)
                     for j in range(reps):
                         scripts.append(dict(s, id="%s-%d" % (s["id"], j)))
-        inp, outp = scratch.path("g-scripts.ndjson"), scratch.path("g-trace.ndjson")
-        with open(inp, "w") as f:
-            for s in scripts:
-                f.write(json.dumps(s) + "\n")
-        rc, out = vlib.run_test_binary(binp, "TestVerifGME", {"VERIF_IN": inp, "VERIF_OUT": outp}, timeout=3000)
-        if rc != 0 or "VERIF-GME" not in out:
-            raise Infra("GCPME harness failed:\n" + out[-3000:])
+        outp = run_sharded(scratch, binp, scripts, "g", {}, 8)
         if pid == "C15":
             # connectivity flaps with yields that sleep at random in front of every lock acquisition (monitor vs notify vs update)
             bing = pool.build_pool_harness(scratch, gates=True)
@@ -132,13 +152,7 @@ def run(pid, tier, seed):
                     st += [{"op": "down", "e": e}, {"op": "rpc", "name": ""}, {"op": "up", "e": e}, {"op": "rpc", "name": "m2"}]
                 st.append({"op": "close"})
                 flaps.append({"id": "flap-%d" % k, "steps": st})
-            finp, foutp = scratch.path("flap-scripts.ndjson"), scratch.path("flap-trace.ndjson")
-            with open(finp, "w") as f:
-                for s_ in flaps:
-                    f.write(json.dumps(s_) + "\n")
-            rc, out = vlib.run_test_binary(bing, "TestVerifGME", {"VERIF_IN": finp, "VERIF_OUT": foutp, "VERIF_JITTER": "1"}, timeout=3000)
-            if rc != 0 or "VERIF-GME" not in out:
-                raise Infra("GCPME flap run failed:\n" + out[-3000:])
+            foutp = run_sharded(scratch, bing, flaps, "flap", {"VERIF_JITTER": "1"}, 4)
             with open(outp, "a") as fo:
                 for ln in open(foutp):
                     fo.write(ln)
